@@ -2,6 +2,7 @@
 """Self-test of the checkers against the seeded changes kept under /verif/seeded (not a registered check).
 
   seeded_eval.py [C04-1 C08-1 ...] [--tier quick|thorough] [--no-suite]
+  seeded_eval.py --benign [C05-1 ...] [--no-suite]     behaviour-preserving edits under /verif/benign: every check must stay silent
 
 For every /verif/seeded/<id>/ : apply patch.diff to a scratch copy of /repo (never to /repo itself), confirm the pinned
 suite still passes and that demo.py fails with / passes without the change, run all 20 checks against the scratch copy
@@ -32,7 +33,7 @@ def evaluate(sid: str, tier: str, suite: bool):
     r = subprocess.run(cmd, capture_output=True, text=True)
     out = r.stdout
     try:
-        res = json.loads(out[out.index("{"):])
+        res = json.loads(out[out.index("{"):], strict=False)
     except Exception:
         return sid, None, out[-400:] + r.stderr[-400:]
     notes = open(os.path.join(d, "notes.md")).read() if os.path.exists(os.path.join(d, "notes.md")) else ""
@@ -60,7 +61,51 @@ def evaluate(sid: str, tier: str, suite: bool):
     return sid, meta, None
 
 
+def evaluate_benign(sid: str, tier: str, suite: bool):
+    d = os.path.join(os.path.dirname(SEEDED), "benign", sid)
+    cmd = ["/venv/bin/python", os.path.join(HERE, "seedtest.py"), os.path.join(d, "patch.diff"), "--tier", tier]
+    if suite:
+        cmd.append("--suite")
+    r = subprocess.run(cmd, capture_output=True, text=True)
+    out = r.stdout
+    try:
+        res = json.loads(out[out.index("{"):], strict=False)
+    except Exception:
+        return sid, None, out[-400:] + r.stderr[-400:]
+    meta_p = os.path.join(d, "meta.json")
+    meta = json.load(open(meta_p)) if os.path.exists(meta_p) else {}
+    prev_suite = meta.get("suite")
+    meta.update({
+        "id": sid, "written_for": sid.split("-")[0], "kind": "behaviour-preserving edit (every check must stay silent)",
+        "origin": "fresh sub-agent given only the property text and a scratch worktree of /repo; equivalence argument in notes.md",
+        "suite": res.get("suite") or prev_suite,
+        "alarms": {p: [re.sub(r"^\S+:\d+: ", "", l)[:260] for l in ls[:2]] for p, ls in sorted(res.get("alarms", {}).items())},
+        "analysis_error_in": {p: (e[0][:200] if e else "") for p, e in sorted(res.get("errors", {}).items())},
+    })
+    json.dump(meta, open(meta_p, "w"), indent=1)
+    return sid, meta, None
+
+
+def main_benign(argv):
+    tier = argv[argv.index("--tier") + 1] if "--tier" in argv else "quick"
+    root = os.path.join(os.path.dirname(SEEDED), "benign")
+    ids = [a for a in argv[1:] if re.match(r"C\d\d-\d+$", a)] or sorted(os.listdir(root))
+    bad = 0
+    with ThreadPoolExecutor(max_workers=2) as ex:
+        for sid, meta, err in ex.map(lambda s: evaluate_benign(s, tier, "--no-suite" not in argv), ids):
+            if meta is None:
+                print(f"{sid}: EVALUATION FAILED {err}")
+                bad += 1
+                continue
+            print(f"{sid}: suite={str(meta.get('suite'))[:34]} alarms={sorted(meta['alarms'])} errors={sorted(meta['analysis_error_in'])}")
+            if meta["alarms"] or meta["analysis_error_in"]:
+                bad += 1
+    return 1 if bad else 0
+
+
 def main(argv):
+    if "--benign" in argv:
+        return main_benign(argv)
     tier = argv[argv.index("--tier") + 1] if "--tier" in argv else "quick"
     ids = [a for a in argv[1:] if re.match(r"C\d\d-\d+$", a)] or sorted(os.listdir(SEEDED))
     ids = [i for i in ids if os.path.isdir(os.path.join(SEEDED, i))]
